@@ -6,19 +6,35 @@ tools/muttest.py, i.e. in a copy of /verif against a scratch worktree of /repo w
 Nothing is applied to /repo itself."""
 import sys, os, json, subprocess, re
 SEEDED = "/verif/seeded"
+def one(arg):
+    sid, slot = arg
+    return run_one(sid, slot)
+
 def main():
     ids = sys.argv[1:] or sorted(os.listdir(SEEDED))
+    import concurrent.futures
+    jobs = int(os.environ.get("RESEED_JOBS", "4"))
     missed = []
-    for sid in ids:
+    missed = []
+    for w in range(0, len(ids), jobs):
+        wave = ids[w:w + jobs]
+        with concurrent.futures.ThreadPoolExecutor(max_workers=jobs) as ex:
+            for sid, ok in ex.map(lambda a: run_one(*a), [(sid, "_s%d" % k) for k, sid in enumerate(wave)]):
+                if not ok: missed.append(sid)
+    print("MISSED:", missed)
+
+def run_one(sid, slot):
+    if True:
         d = os.path.join(SEEDED, sid); mp = os.path.join(d, "meta.json")
-        if not os.path.exists(mp): continue
+        if not os.path.exists(mp): return sid, True
         meta = json.load(open(mp)); prop = sid.split("-")[0]
         props = [prop] + [p for p in meta.get("checks", {}) if p != prop and re.match(r"^C\d\d$", p)]
-        r = subprocess.run(["python3", "/verif/tools/muttest.py", os.path.join(d, "patch.diff")] + props, stdout=subprocess.PIPE, stderr=subprocess.STDOUT)
+        r = subprocess.run(["python3", "/verif/tools/muttest.py", os.path.join(d, "patch.diff")] + props, stdout=subprocess.PIPE, stderr=subprocess.STDOUT,
+                           env=dict(os.environ, MUT_SLOT=slot))
         out = r.stdout.decode()
         try: res = json.loads(out[out.index("{"):])
         except Exception:
-            print(sid, "ERROR", out[-300:]); continue
+            print(sid, "ERROR", out[-300:]); return sid, False
         meta["checks"] = res["results"]; meta["tests_pass_with_patch"] = res["tests_pass"]
         meta["property"] = prop
         meta["caught_by"] = [p for p, x in res["results"].items() if x["exit"] != 0]
@@ -32,6 +48,5 @@ def main():
             "tools/muttest.py: the listed ./check commands in a copy of /verif against the patched worktree (VERIF_REPO); results in 'checks'"]
         json.dump(meta, open(mp, "w"), indent=1)
         print(sid, "caught by", meta["caught_by"] or "NOTHING", flush=True)
-        if not meta["caught_by"]: missed.append(sid)
-    print("MISSED:", missed)
+        return sid, bool(meta["caught_by"])
 main()
